@@ -51,7 +51,7 @@ func c16Defs(obj string, xQuery, xEnum, xUnion, xInput, xIface bool) (base []str
 		ifc += " y: Int"
 	}
 	ifc += " }"
-	ob := "type " + obj + " implements I { x: Int @d y: Int @d(n: 2) q: Query }"
+	ob := "type " + obj + " implements I { x: Int @d y: Int @d(n: 2) q: Query w: Int @d(n: null) }"
 	dir := "directive @d(n: Int = 5) on FIELD_DEFINITION"
 	// dependency order: the first `closed` definitions only refer to each other
 	base = []string{dir, en, in, ifc, ob, q, un}
